@@ -422,11 +422,57 @@ pub fn cmd_batch(a: &Args) -> i32 {
 		}
 	}
 	if !abnormal.is_empty() {
+		// the journal holds every step up to and including the fatal one. For the
+		// property that forbids crashing, looping and unbounded allocation (C09) an
+		// abnormal death (abort, watchdog kill, allocation failure) is a violation
+		// whose replay file is the journal; elsewhere it is a harness error.
 		for (seed, why) in &abnormal {
-			eprintln!("HARNESS-ERROR: run seed {} died abnormally: {}", seed, why);
-		}
-		if exit == 0 {
-			exit = 2;
+			let journal = format!("{}/{}.journal", tmp, seed);
+			let steps: Vec<crate::ops::Step> = std::fs::read_to_string(&journal)
+				.unwrap_or_default()
+				.lines()
+				.filter_map(|l| serde_json::from_str(l).ok())
+				.collect();
+			if prop == "C09" && !steps.is_empty() {
+				let last = steps.last().map(|s| serde_json::to_string(s).unwrap_or_default()).unwrap_or_default();
+				let entry = steps
+					.last()
+					.and_then(|s| match &s.op {
+						crate::ops::Op::Custom { args, .. } => args["entry"].as_str().map(|x| x.to_owned()),
+						_ => None,
+					})
+					.unwrap_or_else(|| "history".into());
+				let sig = format!("abnormal_death:{}", entry);
+				if known.iter().any(|k| k.property == prop && k.signature == sig && k.status == "known") {
+					if known_hit.insert(sig.clone()) {
+						println!("KNOWN-FINDING: property={} process died abnormally in {}", prop, entry);
+					}
+					continue;
+				}
+				let rf = ReplayFile {
+					property: prop.clone(),
+					oracle: "no_abnormal_death".into(),
+					signature: sig,
+					detail: format!("the run died abnormally ({}); last journaled step: {}", why, last),
+					seed: *seed,
+					tier: tier.clone(),
+					knobs: BTreeMap::new(),
+					trace: steps,
+				};
+				let path = format!("{}/{}-{}-abnormal.json", replays_dir, prop, seed);
+				let _ = std::fs::write(&path, serde_json::to_string_pretty(&rf).unwrap());
+				println!("VIOLATION property={} replay={}", prop, path);
+				println!("  oracle=no_abnormal_death signature={} detail={}", rf.signature, rf.detail.chars().take(300).collect::<String>());
+				n_viol += 1;
+				if exit == 0 {
+					exit = 1;
+				}
+			} else {
+				eprintln!("HARNESS-ERROR: run seed {} died abnormally: {}", seed, why);
+				if exit == 0 {
+					exit = 2;
+				}
+			}
 		}
 	}
 
